@@ -92,8 +92,9 @@ def translate():
     return rc == 0, out.strip()
 
 
-def build(jobs=NCPU, timeout=1500):
-    """Full .vo build of the development under a lock. Returns (ok, log)."""
+def build(jobs=NCPU, timeout=1500, targets=None):
+    """Full .vo build (never -vos) of the development, or of the dependency cone of `targets`, under a lock.
+    A check builds only its own cone, so a proof broken for one property is not reported for another."""
     BUILD.mkdir(exist_ok=True)
     with open(BUILD / '.lock', 'w') as lk:
         fcntl.flock(lk, fcntl.LOCK_EX)
@@ -107,7 +108,8 @@ def build(jobs=NCPU, timeout=1500):
             rc, out, _ = run(['coq_makefile', '-f', '_CoqProject', '-o', 'Makefile'], 60, cwd=COQ)
             if rc != 0:
                 return False, out
-        rc, out, _ = run(['make', '-j%d' % jobs], timeout, cwd=COQ)
+        cmd = ['make', '-j%d' % jobs] + (list(targets) if targets else ['-k'])
+        rc, out, _ = run(cmd, timeout, cwd=COQ)
         return rc == 0, out[-6000:]
 
 
@@ -240,7 +242,7 @@ def coq_mismatches(rundir, module, runfn, cases, shard=300, maxbytes=250_000, ti
     while pending or running:
         while pending and len(running) < NCPU:
             st, n, f = pending.pop(0)
-            p = subprocess.Popen(['timeout', str(timeout), 'coqc', '-Q', str(COQ), 'AHP', str(f)], cwd=rundir,
+            p = subprocess.Popen(['bash', '-c', 'ulimit -s unlimited 2>/dev/null || ulimit -s 4000000 2>/dev/null; exec timeout %d coqc -Q %s AHP %s' % (timeout, COQ, f)], cwd=rundir,
                                  stdin=subprocess.DEVNULL, stdout=subprocess.PIPE, stderr=subprocess.STDOUT, text=True)
             running.append((st, n, f, p))
         still = []
@@ -332,6 +334,30 @@ def exc_name(e):
 # check driver
 # --------------------------------------------------------------------------------------------
 
+class CaseTimeout(BaseException):
+    pass
+
+
+class time_limit:
+    """wall-clock limit for one call into the implementation (main thread only)"""
+    def __init__(self, seconds):
+        self.seconds = seconds
+
+    def __enter__(self):
+        import signal
+
+        def handler(signum, frame):
+            raise CaseTimeout('no return within %ss' % self.seconds)
+        self.old = signal.signal(signal.SIGALRM, handler)
+        signal.setitimer(signal.ITIMER_REAL, self.seconds)
+
+    def __exit__(self, *a):
+        import signal
+        signal.setitimer(signal.ITIMER_REAL, 0)
+        signal.signal(signal.SIGALRM, self.old)
+        return False
+
+
 class Problem:
     def __init__(self, kind, what, case=None, detail=None, key=None):
         self.kind, self.what, self.case, self.detail, self.key = kind, what, case, detail, key
@@ -347,6 +373,7 @@ class Check:
     ASSUMPTIONS = []
     PARTIAL = []
     SHARD = 300
+    CASE_TIMEOUT = 30
 
     def __init__(self, tier, seed):
         self.tier, self.seed = tier, seed
@@ -406,9 +433,18 @@ class Check:
 
     def safe_oracle(self, case):
         try:
-            return self.oracle(case)
+            with time_limit(self.CASE_TIMEOUT):
+                return self.oracle(case)
+        except CaseTimeout as e:
+            return 'the library call did not return: %s' % e
         except Exception as e:  # an oracle crash is a harness bug, never a violation
+            self.stats['oracle_crashes'] = self.stats.get('oracle_crashes', 0) + 1
+            self.stats.setdefault('oracle_crash_sample', repr(e)[:300])
             return None
+
+    def safe_impl(self, case):
+        with time_limit(self.CASE_TIMEOUT):
+            return self.run_impl(case)
 
 
 def write_replay(prop, obj):
@@ -465,7 +501,10 @@ def _main(chk, prop, tier, args, rundir, t0):
 
     # 1. build + gate + audit ---------------------------------------------------
     if not args.no_build:
-        ok, blog = build()
+        tg = ['Properties/%s.vo' % prop]
+        if chk.RUN_MODULE:
+            tg.append(chk.RUN_MODULE.replace('.', '/') + '.vo')
+        ok, blog = build(targets=tg)
         if not ok:
             problems.append(Problem('proof', 'build of the Coq development failed', detail=blog[-3000:]))
     gate = source_gate()
@@ -509,8 +548,8 @@ def _main(chk, prop, tier, args, rundir, t0):
         if what:
             violations.append((case, what))
         try:
-            snap = chk.run_impl(case)
-        except Exception as e:
+            snap = chk.safe_impl(case)
+        except (Exception, CaseTimeout) as e:
             snap = None
             problems.append(Problem('harness', 'implementation adapter raised %r' % (e,), case=case))
         if snap is None:
